@@ -76,6 +76,9 @@ def seeds_selftest(ids):
     for d in dirs:
         meta = json.load(open(os.path.join(d, "meta.json")))
         prop = meta["property"]
+        if meta.get("obsolete"):
+            print("%-9s %-4s skipped (obsolete: equivalent to the repaired code)" % (meta["id"], prop), flush=True)
+            continue
         if subprocess.run(["git", "-C", C.REPO, "diff", "--quiet"]).returncode != 0:
             raise C.ToolError("/repo is dirty")
         r = subprocess.run(["git", "-C", C.REPO, "apply", os.path.join(d, "patch.diff")], capture_output=True, text=True)
